@@ -25,7 +25,7 @@ class Contract:
     def __init__(self, qual, params, requires=(), ensures=(), raises=None, loops=None, measures=None, ghost=None,
                  make_inputs=None, make_result=None, havoc=None, defaults=None, is_property=False, modifies=(),
                  axioms=(), trace_op=None, stable_shapes=(), list_havoc=None, obj_havoc=None, cases=None,
-                 notes="", assumed=False, sym_lists=None, float_model=False):
+                 notes="", assumed=False, sym_lists=None, float_model=False, sym_dicts=()):
         self.qual, self.params = qual, list(params)
         self.short = qual.split(".", 2)[-1] if qual.count(".") >= 2 else qual
         self.requires, self.ensures = list(requires), list(ensures)
@@ -46,6 +46,7 @@ class Contract:
         self.notes = notes
         self.assumed = assumed      # True: external function, contract is an axiom (trusted base)
         self.float_model = float_model          # IEEE rounding of real / and + modelled with relative error 2**-53
+        self.sym_dicts = tuple(sym_dicts)        # local names holding dictionaries with symbolic (numeric) keys
         self.sym_lists = dict(sym_lists or {})   # local list name -> element class ("TimeSeries", ..., or "real"/"int"/"bool")
 
     def bind(self, ex, st, args, kwargs):
